@@ -236,6 +236,41 @@ struct Keyed {
     by_color: BTreeMap<Color, i8>,
 }
 
+/// Struct variants whose payload may legitimately be the empty map.
+#[derive(Serialize, Deserialize, PartialEq, Debug, Clone)]
+enum Cmd {
+    Flush {},
+    Open {
+        #[serde(default)]
+        path: Option<String>,
+        #[serde(default)]
+        mode: u8,
+    },
+    Retry {
+        #[serde(default, skip_serializing_if = "Option::is_none")]
+        n: Option<u32>,
+    },
+    Close,
+}
+
+/// A value whose own `Serialize` refuses, however deep it sits.
+#[derive(Debug, Clone, PartialEq)]
+struct Refuses;
+impl Serialize for Refuses {
+    fn serialize<S: serde::Serializer>(&self, _: S) -> Result<S::Ok, S::Error> {
+        Err(serde::ser::Error::custom("this value refuses to be serialised"))
+    }
+}
+
+/// `depth` arrays (or single-member objects) around a leaf.
+fn nested_value(depth: usize, objects: bool) -> Value {
+    let mut v = json!(7);
+    for d in 0..depth {
+        v = if objects && d % 2 == 0 { json!({ "k": v }) } else { Value::Array(vec![v]) };
+    }
+    v
+}
+
 fn gstdzoo(r: &mut Rng) -> StdZoo {
     StdZoo {
         d: std::time::Duration::new(r.below(5) as u64, r.below(1000) as u32),
@@ -422,6 +457,8 @@ fn foreign_pool() -> Vec<Value> {
         json!("127.0.0.1"), json!("::1"), json!("x"), json!({"V4": [127, 0, 0, 1]}),
         json!({"Ok": 1}), json!({"Err": "e"}), json!({"Ok": "e"}), json!({"ok": 1}), json!({"Ok": 1, "Err": "e"}),
         json!({"start": 1, "end": 5}), json!({"start": 1}), json!([1, 5]), json!("Unbounded"), json!({"Included": 3}), json!({"Excluded": 300}),
+        json!({"Flush": {}}), json!({"Open": {}}), json!({"Retry": {}}), json!({"Flush": null}), json!({"Flush": []}), json!("Flush"), json!("Close"), json!({"Close": {}}), json!({"Close": null}),
+        json!({"Open": {"mode": 3}}), json!({"Open": {"path": null}}), json!({"Open": []}), json!({"Open": [null, 1]}), json!({"Retry": {"n": 1, "x": 0}}), json!({"Flush": {"x": 1}}),
         json!({"id": 1, "k": 2, "j": 3}), json!({"id": 1}), json!({"id": "x"}), json!({"renamed-key": 5, "y": null}), json!({"renamed-key": 5, "y": {"renamed-key": 6, "y": null}}), json!({"x": 5}),
     ]
 }
@@ -452,7 +489,7 @@ pub fn run(args: &Args) {
                 std::time::Duration => "Duration", std::net::IpAddr => "IpAddr", std::num::NonZeroU8 => "NonZeroU8", Result<i32, String> => "Result<i32,String>",
                 std::ops::Range<i32> => "Range<i32>", std::collections::BTreeSet<u8> => "BTreeSet<u8>", (i32,) => "(i32,)", std::ops::Bound<u8> => "Bound<u8>",
                 [u8; 0] => "[u8;0]", std::path::PathBuf => "PathBuf", Box<Option<i16>> => "Box<Option<i16>>", std::num::Wrapping<u8> => "Wrapping<u8>",
-                Option<Vec<Option<(bool, char)>>> => "Option<Vec<Option<(bool,char)>>>", (Version, Color) => "(Version,Color)", Vec<Version> => "Vec<Version>",
+                Option<Vec<Option<(bool, char)>>> => "Option<Vec<Option<(bool,char)>>>", (Version, Color) => "(Version,Color)", Vec<Version> => "Vec<Version>", Cmd => "Cmd", Vec<Cmd> => "Vec<Cmd>", Option<Cmd> => "Option<Cmd>",
             );
         }
     }
@@ -460,7 +497,7 @@ pub fn run(args: &Args) {
     for i in 0..args.n {
         let mut rng = Rng::derive(args.seed, args.shard + 12000, i);
         let r = &mut rng;
-        match i % 46 {
+        match i % 50 {
             34 => {
                 let v = DupFlatten {
                     kind: "outer".into(),
@@ -476,6 +513,32 @@ pub fn run(args: &Args) {
             36 => {
                 let v = DupMap((0..r.below(5) + 1).map(|_| (["a", "b", "a"][r.below(3)].to_string(), gi::<i32>(r, -9, 9))).collect());
                 check_ser(&mut rep, &v, "DupMap(duplicate keys)");
+            }
+            46 => both(
+                &mut rep,
+                &[Cmd::Flush {}, Cmd::Open { path: None, mode: 0 }, Cmd::Open { path: Some(gstr(r)), mode: gi(r, 0, 255) }, Cmd::Retry { n: None }, Cmd::Retry { n: Some(3) }, Cmd::Close][r.below(6)].clone(),
+                "Cmd",
+                &ident,
+            ),
+            47 => {
+                // refused conversions, at several depths: both sides must refuse, and nothing may be left behind
+                let v = vec![vec![vec![Refuses]]];
+                check_ser(&mut rep, &v, "Vec<Vec<Vec<Refuses>>>");
+                let m: BTreeMap<String, Vec<Option<Refuses>>> = vec![("a".to_string(), vec![None, Some(Refuses)])].into_iter().collect();
+                check_ser(&mut rep, &m, "BTreeMap<String,Vec<Option<Refuses>>>");
+                // integer-keyed maps are refused by this crate only (outside the statement): not compared, just exercised
+                let ik: Vec<Vec<BTreeMap<i32, i32>>> = vec![vec![vec![(1, 2)].into_iter().collect()]];
+                let _ = guarded(|| Variable::from_serializable(&ik).is_ok());
+                rep.count("integer_keyed_map_exercised_not_compared");
+            }
+            48 | 49 => {
+                // deeply nested native values (serialising has no depth limit in serde_json)
+                let d = [60usize, 100, 120, 125, 126, 127, 128, 129, 130, 200, 400][r.below(11)];
+                let v = nested_value(d, i % 50 == 49);
+                if let Some(j) = check_ser(&mut rep, &v, "Value(nested)") {
+                    rep.max("max/nested_native_depth", d as u64);
+                    let _ = j;
+                }
             }
             38 => both(&mut rep, &gstdzoo(r), "StdZoo", &ident),
             39 => both(&mut rep, &gkeyed(r), "Keyed", &ident),
